@@ -138,6 +138,24 @@ func errSources(x ssa.Value) []string {
 			walk(y.X, d+1)
 		case *ssa.ChangeInterface:
 			walk(y.X, d+1)
+		case *ssa.UnOp:
+			// a named result kept in a cell (functions with defers): the value is the latest store in the same block
+			al, ok := y.X.(*ssa.Alloc)
+			if !ok || y.Op != token.MUL {
+				return
+			}
+			var last ssa.Value
+			for _, in := range y.Block().Instrs {
+				if in == ssa.Instruction(y) {
+					break
+				}
+				if st, ok := in.(*ssa.Store); ok && st.Addr == ssa.Value(al) {
+					last = st.Val
+				}
+			}
+			if last != nil {
+				walk(last, d+1)
+			}
 		}
 	}
 	walk(x, 0)
